@@ -10,7 +10,7 @@ Property theorems only. Definitions used in the statements are in `Lemmas/Render
 
 * `Sk α` — the logical *skeleton* of a filter over abstract atoms: `atom a`, `not s`, `paren s`,
   `chain first [(o₁,e₁),…,(oₙ,eₙ)]`;
-* `Renders A tight sk s` — `s` is ONE OF THE SPELLINGS of `sk`: at every operator occurrence any
+* `Renders env A tight sk s` — `s` is ONE OF THE SPELLINGS of `sk`: at every operator occurrence any
   alias of the model's `lex_enum!` tables (`logicalOps`: `or`/`||`, `xor`/`^^`, `and`/`&&`;
   `unaryOps`: `not`/`!`), and any amount (also none) of layout (`SPACE_CHARS`) after every
   operator, after `(`, before `)` and before every combining operator. The single place where a
@@ -18,12 +18,20 @@ Property theorems only. Definitions used in the statements are in `Lemmas/Render
   operator — unless `tight = true` (atoms are assumed to stop before `&`, `|`, `^`) and the
   operator is spelled symbolically. No space is needed after `not`/`and`/`or`/`xor` even before
   a letter: like the Rust `lex_enum!` lexers the model does not look for a word boundary after an
-  operator (`nota` is `not a`, `a andb` is `a and b`).
+  operator (`a andb` is `a and b`; `nota` is `not a`). One exception, from
+  `LogicalExpr::lex_unary_op`: the word `not` glued to name characters is NOT the operator when
+  the maximal dotted name starting at the `n` is registered (`notes` is the field `notes`). So
+  a rendering may omit the layout after the word `not` only where `glueOk env al ws t` holds
+  (decidable: layout follows, or the operand starts with no name character, or that maximal
+  name-character run is not a name of the scheme) — this is the only place where `Renders`
+  depends on `env`; for a scheme without names beginning with `not` the condition is vacuous
+  and `Renders` is what it was before that fix.
 * `GoodAtom env A tight a` — the hypothesis on atoms: before every continuation the atom *stops*
   at (`Stop tight`: end of input, a space, `)`, with `tight` also `&`, `|`, `^`) and at every
   nesting budget, `comparisonL` reads exactly the text `A.txt a`, returns `A.node a : Bool` and
-  leaves the continuation; the text is not taken for a unary operator or a quantifier call; the
-  node is not a bare `combining` node.
+  leaves the continuation; the text is not taken for a unary operator (by `lex_unary_op`, i.e.
+  `lexUnary env`: weaker than before — a registered name beginning with `not` qualifies) or a
+  quantifier call; the node is not a bare `combining` node.
 * `canon A sk` — the declarative meaning: atoms ↦ nodes, `not` ↦ `unaryNot`, `paren` ↦ `paren`,
   chain ↦ `layered` (C01: split at `or`, chunks at `xor`, chunks of those at `and`; flattened).
 * `Admissible tight sk rest` — what may follow: no combining operator (`NoOp`), and something an
@@ -47,7 +55,7 @@ that covers its parentheses and `not`s, and every admissible continuation `rest`
 `canon sk` with type `Bool`, and leaves `rest`. -/
 theorem parse_render_logical (env : PEnv) (A : Atoms α) (tight : Bool)
     (hA : ∀ a, GoodAtom env A tight a) (sk : Sk α) (s : Input) (n : Nat)
-    (hr : Renders A tight sk s) (hn : depth sk ≤ n)
+    (hr : Renders env A tight sk s) (hn : depth sk ≤ n)
     (rest : Input) (hrest : Admissible tight sk rest) :
     (level env n).logical (s ++ rest) = .ok ({ node := canon A sk, ty := .bool }, rest) := by
   rw [level_logical]
@@ -57,7 +65,7 @@ theorem parse_render_logical (env : PEnv) (A : Atoms α) (tight : Bool)
 for the caller — only an atom at the end needs a continuation it stops at -/
 theorem parse_render_simple (env : PEnv) (A : Atoms α) (tight : Bool)
     (hA : ∀ a, GoodAtom env A tight a) (sk : Sk α) (s : Input) (n : Nat)
-    (hr : RendersSimple A tight sk s) (hn : depth sk ≤ n)
+    (hr : RendersSimple env A tight sk s) (hn : depth sk ≤ n)
     (rest : Input) (hrest : endsAtom sk = true → Stop tight rest = true) :
     (level env n).simple (s ++ rest) = .ok ({ node := canon A sk, ty := .bool }, rest) := by
   rw [level_simple]
@@ -68,18 +76,26 @@ whitespace: `trim s = s`, decidable on a given string) whose nesting is within
 `max_nesting_depth` returns exactly `canon sk`. -/
 theorem parse_render_filter (env : PEnv) (A : Atoms α) (tight : Bool)
     (hA : ∀ a, GoodAtom env A tight a) (sk : Sk α) (s : Input)
-    (hr : Renders A tight sk s) (hd : depth sk ≤ env.st.maxDepth) (htrim : trim s = s) :
+    (hr : Renders env A tight sk s) (hd : depth sk ≤ env.st.maxDepth) (htrim : trim s = s) :
     parseFilter env s = .ok (canon A sk) := by
   have h := parse_render_logical env A tight hA sk s env.st.maxDepth hr hd []
     ⟨fun _ => rfl, rfl⟩
   rw [List.append_nil] at h
   simp [parseFilter, htrim, h, complete]
 
+/-- the side condition `glueOk` of `Renders` (may the word `not` be glued to its operand?) is
+vacuous for a scheme none of whose names begins with `not`: there `Renders` allows every
+spelling it allowed before `lex_unary_op` -/
+theorem glueOk_vacuous (env : PEnv)
+    (h : ∀ name, (env.scheme.get name).isSome = true → "not".toList.isPrefixOf name = false)
+    (al : String) (ws t : Input) : glueOk env al ws t = true :=
+  glueOk_of_no_not_names env h al ws t
+
 /-- **Every well-formed skeleton has a rendering** (`WF`, decidable: chain operands and `not`
 arguments are `atom` / `not` / `paren`): the canonical one, `renderStd` — word aliases, single
 spaces. So the theorems above are about all well-formed skeletons, of any size. -/
-theorem render_exists (A : Atoms α) (tight : Bool) (sk : Sk α) (hwf : WF sk = true) :
-    Renders A tight sk (renderStd A sk) := renders_std A tight sk hwf
+theorem render_exists (env : PEnv) (A : Atoms α) (tight : Bool) (sk : Sk α) (hwf : WF sk = true) :
+    Renders env A tight sk (renderStd A sk) := renders_std env A tight sk hwf
 
 /-- **parse ∘ render = meaning**, in functional form -/
 theorem parse_render_std (env : PEnv) (A : Atoms α) (tight : Bool)
@@ -87,12 +103,12 @@ theorem parse_render_std (env : PEnv) (A : Atoms α) (tight : Bool)
     (hn : depth sk ≤ n) (rest : Input) (hrest : Admissible tight sk rest) :
     (level env n).logical (renderStd A sk ++ rest) =
       .ok ({ node := canon A sk, ty := .bool }, rest) :=
-  parse_render_logical env A tight hA sk _ n (renders_std A tight sk hwf) hn rest hrest
+  parse_render_logical env A tight hA sk _ n (renders_std env A tight sk hwf) hn rest hrest
 
 /-- every rendering parses like the canonical one -/
 theorem parse_render_eq_std (env : PEnv) (A : Atoms α) (tight : Bool)
     (hA : ∀ a, GoodAtom env A tight a) (sk : Sk α) (hwf : WF sk = true) (s : Input) (n : Nat)
-    (hr : Renders A tight sk s) (hn : depth sk ≤ n)
+    (hr : Renders env A tight sk s) (hn : depth sk ≤ n)
     (rest : Input) (hrest : Admissible tight sk rest) :
     ∃ e : Typed LExpr, (level env n).logical (s ++ rest) = .ok (e, rest) ∧
       (level env n).logical (renderStd A sk ++ rest) = .ok (e, rest) :=
@@ -106,7 +122,7 @@ alias at every operator occurrence, different layout everywhere — are read to 
 AST, each leaving its own continuation. -/
 theorem alias_layout_invariance_level (env : PEnv) (A : Atoms α) (tight : Bool)
     (hA : ∀ a, GoodAtom env A tight a) (sk : Sk α) (s₁ s₂ : Input) (n : Nat)
-    (h₁ : Renders A tight sk s₁) (h₂ : Renders A tight sk s₂) (hn : depth sk ≤ n)
+    (h₁ : Renders env A tight sk s₁) (h₂ : Renders env A tight sk s₂) (hn : depth sk ≤ n)
     (rest₁ rest₂ : Input) (hr₁ : Admissible tight sk rest₁) (hr₂ : Admissible tight sk rest₂) :
     ∃ e : Typed LExpr, (level env n).logical (s₁ ++ rest₁) = .ok (e, rest₁) ∧
       (level env n).logical (s₂ ++ rest₂) = .ok (e, rest₂) :=
@@ -118,7 +134,7 @@ same AST (namely `canon sk`), hence to the same JSON document, the same JSON tex
 FNV-1a hash (`wirefilter_get_filter_hash`). -/
 theorem alias_layout_invariance (env : PEnv) (A : Atoms α) (tight : Bool)
     (hA : ∀ a, GoodAtom env A tight a) (sk : Sk α) (s₁ s₂ : Input)
-    (h₁ : Renders A tight sk s₁) (h₂ : Renders A tight sk s₂)
+    (h₁ : Renders env A tight sk s₁) (h₂ : Renders env A tight sk s₂)
     (hd : depth sk ≤ env.st.maxDepth) (ht₁ : trim s₁ = s₁) (ht₂ : trim s₂ = s₂) :
     ∃ e₁ e₂ : LExpr, parseFilter env s₁ = .ok e₁ ∧ parseFilter env s₂ = .ok e₂ ∧
       e₁ = e₂ ∧ e₁ = canon A sk ∧
@@ -132,7 +148,7 @@ theorem alias_layout_invariance (env : PEnv) (A : Atoms α) (tight : Bool)
 /-- the form used on outcomes: whatever the two parses return, it is the same -/
 theorem alias_layout_same_outcome (env : PEnv) (A : Atoms α) (tight : Bool)
     (hA : ∀ a, GoodAtom env A tight a) (sk : Sk α) (s₁ s₂ : Input)
-    (h₁ : Renders A tight sk s₁) (h₂ : Renders A tight sk s₂)
+    (h₁ : Renders env A tight sk s₁) (h₂ : Renders env A tight sk s₂)
     (hd : depth sk ≤ env.st.maxDepth) (ht₁ : trim s₁ = s₁) (ht₂ : trim s₂ = s₂) :
     parseFilter env s₁ = parseFilter env s₂ := by
   rw [parse_render_filter env A tight hA sk s₁ h₁ hd ht₁,
@@ -147,7 +163,7 @@ at `xor`, every chunk of that at `and`, same-operator chains flat — binding st
 operands are simple expressions). -/
 theorem precedence_whole_filter (env : PEnv) (A : Atoms α) (tight : Bool)
     (hA : ∀ a, GoodAtom env A tight a) (first : Sk α) (ops : List (LogicalOp × Sk α))
-    (s : Input) (n : Nat) (hr : Renders A tight (.chain first ops) s)
+    (s : Input) (n : Nat) (hr : Renders env A tight (.chain first ops) s)
     (hn : depth (.chain first ops) ≤ n)
     (rest : Input) (hrest : Admissible tight (.chain first ops) rest) :
     (level env n).logical (s ++ rest) =
@@ -174,9 +190,9 @@ example : canon exAtoms exSk =
 /-- three spellings of `exSk` (`Lemmas/Render/Example.lean`): `not a and (b or a) xor b`,
 `!a&&(⏎ b||a )^^b` (symbolic aliases, no spaces around them: `tight`), and
 `nota  and( b ||a)⏎  xorb` (no space after the word operators, mixed aliases, CR LF) -/
-example : Renders exAtoms true exSk "not a and (b or a) xor b".toList ∧
-    Renders exAtoms true exSk "!a&&(\n b||a )^^b".toList ∧
-    Renders exAtoms true exSk "nota  and( b ||a)\r\n  xorb".toList :=
+example : Renders exEnv exAtoms true exSk "not a and (b or a) xor b".toList ∧
+    Renders exEnv exAtoms true exSk "!a&&(\n b||a )^^b".toList ∧
+    Renders exEnv exAtoms true exSk "nota  and( b ||a)\r\n  xorb".toList :=
   ⟨exRenders₁, exRenders₂, exRenders₃⟩
 
 example : WF exSk = true ∧ depth exSk = 1 ∧
@@ -202,6 +218,19 @@ example : (match parseFilter exEnv "aand b".toList with | .ok _ => true | .error
 /-- … whereas no space is needed AFTER a word operator (`lex_enum!` looks for no word boundary) -/
 example : (match parseFilter exEnv "a andb".toList with | .ok _ => true | .error _ => false) = true := by
   decide
+
+/-- the side condition `glueOk` is sharp: with a field `nota` registered next to `a`, the text
+`nota` is the field `nota` (index 1), not `not a` — `glueOk` fails for gluing `not` to `a`, and
+holds again as soon as a space follows (`not a` is `unaryNot a`) -/
+example :
+    let env : PEnv :=
+      { scheme := { fields := [⟨"a".toList, .bool, false⟩, ⟨"nota".toList, .bool, false⟩],
+                    funcs := [], lists := [] }, st := {} }
+    parseFilter env "nota".toList = .ok (.comparison (.field 1 []) .isTrue) ∧
+    glueOk env "not" [] "a".toList = false ∧
+    glueOk env "not" [' '] "a".toList = true ∧
+    parseFilter env "not a".toList = .ok (.unaryNot (.comparison (.field 0 []) .isTrue)) :=
+  ⟨rfl, rfl, rfl, rfl⟩
 
 end Examples
 
